@@ -163,28 +163,103 @@ pub fn dyn_time<G: TimeGetter<E> + 'static>(r: &Rc<RefCell<G>>) -> Reference<dyn
     Reference::from_rc_ref_cell(d)
 }
 
-/// Exponents (mm, s) of a unit, read from its representation so that the harness does not
-/// depend on the crate's own unit-equality code (which C01 is checking). The field order is
-/// calibrated once against the derived Debug output. (0,0) on unchecked builds (ZST Unit).
+/// How the harness reads the exponents (mm, s) of a `Unit` without going through the crate's own
+/// unit-equality code (which C01 is checking): the in-memory representation is *learnt* by probing
+/// `Unit::new(m, s)` for a handful of (m, s) - for each exponent a byte offset, an integer width
+/// (1, 2 or 4 bytes, little endian) and a sign (some representations store the negated second
+/// exponent). If no such layout explains the probes (an unforeseen representation) the harness
+/// falls back to identifying a unit by the crate's `==` against `Unit::new(m, s)`; `unit_mode()`
+/// says which mode is in use (recorded in the evidence). (0,0) on unchecked builds (ZST Unit).
+#[derive(Clone, Copy, Debug, PartialEq)]
+struct Field {
+    off: usize,
+    width: usize,
+    neg: bool,
+}
+#[derive(Clone, Copy, Debug, PartialEq)]
+enum UnitRepr {
+    Layout(Field, Field),
+    ByEquality,
+}
+#[cfg(feature = "dimcheck")]
+fn unit_raw(u: Unit) -> Vec<u8> {
+    let n = core::mem::size_of::<Unit>();
+    let p = &u as *const Unit as *const u8;
+    (0..n).map(|i| unsafe { *p.add(i) }).collect()
+}
+#[cfg(feature = "dimcheck")]
+fn field_read(raw: &[u8], f: Field) -> i32 {
+    let mut v: i64 = 0;
+    for i in 0..f.width {
+        v |= (raw[f.off + i] as i64) << (8 * i);
+    }
+    let bits = 8 * f.width as u32;
+    let v = (v << (64 - bits)) >> (64 - bits); // sign-extend
+    (if f.neg { -v } else { v }) as i32
+}
+#[cfg(feature = "dimcheck")]
+fn unit_repr() -> UnitRepr {
+    use std::sync::OnceLock;
+    static REPR: OnceLock<UnitRepr> = OnceLock::new();
+    *REPR.get_or_init(|| {
+        let probes: [(i8, i8); 7] = [(5, -7), (-3, 2), (0, 0), (100, -100), (-128, 127), (127, -128), (1, 1)];
+        let raws: Vec<Vec<u8>> = probes.iter().map(|&(m, s)| unit_raw(Unit::new(m, s))).collect();
+        let n = core::mem::size_of::<Unit>();
+        let find = |which: usize| -> Option<Field> {
+            for width in [1usize, 2, 4] {
+                for off in 0..n.saturating_sub(width - 1) {
+                    for neg in [false, true] {
+                        let f = Field { off, width, neg };
+                        // i8::MIN negated does not fit a 1-byte field: skip that probe for negated 1-byte layouts
+                        let ok = probes.iter().zip(&raws).all(|(p, raw)| {
+                            let want = if which == 0 { p.0 } else { p.1 } as i32;
+                            (neg && width == 1 && want == -128) || field_read(raw, f) == want
+                        });
+                        if ok {
+                            return Some(f);
+                        }
+                    }
+                }
+            }
+            None
+        };
+        match (find(0), find(1)) {
+            (Some(a), Some(b)) if a.off != b.off => UnitRepr::Layout(a, b),
+            _ => UnitRepr::ByEquality,
+        }
+    })
+}
+pub fn unit_mode() -> String {
+    #[cfg(feature = "dimcheck")]
+    {
+        match unit_repr() {
+            UnitRepr::Layout(a, b) => format!("unit exponents read from the representation (size {} bytes; mm at offset {} width {}{}; s at offset {} width {}{})", core::mem::size_of::<Unit>(), a.off, a.width, if a.neg { " negated" } else { "" }, b.off, b.width, if b.neg { " negated" } else { "" }),
+            UnitRepr::ByEquality => "unit representation not recognised: units identified through the crate's own == against Unit::new(m, s)".to_string(),
+        }
+    }
+    #[cfg(not(feature = "dimcheck"))]
+    {
+        "dimension checking compiled out: Unit carries no exponents".to_string()
+    }
+}
 pub fn unit_exps(u: Unit) -> (i32, i32) {
     #[cfg(feature = "dimcheck")]
     {
-        use std::sync::OnceLock;
-        static MM_FIRST: OnceLock<bool> = OnceLock::new();
-        assert_eq!(core::mem::size_of::<Unit>(), 2, "Unit is expected to be two i8 exponents");
-        let raw = |u: Unit| -> [i8; 2] { unsafe { core::mem::transmute_copy(&u) } };
-        let mm_first = *MM_FIRST.get_or_init(|| {
-            let probe = Unit::new(5, -7);
-            assert_eq!(unit_exps_debug(probe), (5, -7), "Debug output of Unit does not have the expected shape");
-            let r = raw(probe);
-            assert!(r == [5, -7] || r == [-7, 5]);
-            r == [5, -7]
-        });
-        let r = raw(u);
-        if mm_first {
-            (r[0] as i32, r[1] as i32)
-        } else {
-            (r[1] as i32, r[0] as i32)
+        match unit_repr() {
+            UnitRepr::Layout(a, b) => {
+                let raw = unit_raw(u);
+                (field_read(&raw, a), field_read(&raw, b))
+            }
+            UnitRepr::ByEquality => {
+                for m in -128i32..=127 {
+                    for s in -128i32..=127 {
+                        if u == Unit::new(m as i8, s as i8) {
+                            return (m, s);
+                        }
+                    }
+                }
+                (i32::MIN, i32::MIN)
+            }
         }
     }
     #[cfg(not(feature = "dimcheck"))]
@@ -193,20 +268,17 @@ pub fn unit_exps(u: Unit) -> (i32, i32) {
         (0, 0)
     }
 }
-/// Same, parsed from the derived Debug output `Unit { millimeter_exp: m, second_exp: s }`.
-pub fn unit_exps_debug(u: Unit) -> (i32, i32) {
+/// The same, parsed from the derived Debug output `Unit { millimeter_exp: m, second_exp: s }`;
+/// None if the Debug output does not have that shape (Debug formats are not part of any property).
+pub fn unit_exps_debug(u: Unit) -> Option<(i32, i32)> {
     let s = format!("{:?}", u);
-    let num = |key: &str| -> i32 {
-        match s.find(key) {
-            None => 0,
-            Some(p) => {
-                let rest = &s[p + key.len()..];
-                let end = rest.find(|c: char| c != '-' && !c.is_ascii_digit()).unwrap_or(rest.len());
-                rest[..end].parse().unwrap_or(i32::MIN)
-            }
-        }
+    let num = |key: &str| -> Option<i32> {
+        let p = s.find(key)?;
+        let rest = &s[p + key.len()..];
+        let end = rest.find(|c: char| c != '-' && !c.is_ascii_digit()).unwrap_or(rest.len());
+        rest[..end].parse().ok()
     };
-    (num("millimeter_exp: "), num("second_exp: "))
+    Some((num("millimeter_exp: ")?, num("second_exp: ")?))
 }
 pub fn unit_code(u: Unit) -> i32 {
     let (m, s) = unit_exps(u);
